@@ -208,6 +208,41 @@ def check_reentrant(ctx, c, label, mode, hook_kind, where):
     return text, out
 
 
+# --- nowiki inside constructs that are written back as text (two levels of stand-ins), with a later nowiki on the page ----
+# Oracle by substitution: with an inert word as content the result is R; with content c it is R with the word replaced by
+# the quoted c (or by c itself where the context is raw text): nothing of c changes anything around it.
+EMBED2 = ["{{<nowiki/>t|[[a|%s]]}} <nowiki>y</nowiki>", "<pre>{{t|%s}} <nowiki>y</nowiki></pre>",
+          '<span title="[[a|%s]] <nowiki>y</nowiki>">z</span>', "{{<nowiki/>t|{{{p|%s}}}}} <nowiki>y</nowiki>",
+          "[[a|{{<nowiki/>t|%s}}]] %s", "{{zz|[[a|%s]]}} <nowiki>y</nowiki>", "%s {{<nowiki/>t|[[a|<nowiki>y</nowiki>]]}}",
+          "{{<nowiki/>t|[[a|<nowiki>y</nowiki>]]}} %s"]
+MARK = "QZQ"
+
+
+def check_nowiki2(ctx, c, tmpl):
+    import json as _json
+    out = []
+    q = ref_quote(c)
+
+    def both(content):
+        text = tmpl.replace("%s", "<nowiki>" + content + "</nowiki>")
+        ctx.start_page("Tt")
+        ex = ctx.expand(text)
+        ctx.start_page("Tt")
+        return text, ex, _json.dumps(dump(ctx.parse(text)), ensure_ascii=False)
+
+    _, bex, bd = both(MARK)
+    text, ex, d = both(c)
+    jq = _json.dumps(q, ensure_ascii=False)[1:-1]
+    jc = _json.dumps(c, ensure_ascii=False)[1:-1]
+    if ex not in (bex.replace(MARK, q), bex.replace(MARK, c)):
+        out.append(("expand_as_with_inert_content", ex, bex.replace(MARK, q)))
+    if d not in (bd.replace(MARK, jq), bd.replace(MARK, jc)):
+        out.append(("parse_as_with_inert_content", d, bd.replace(MARK, jq)))
+    if any(0x10203E <= ord(ch) <= 0x10FFFD for ch in ex + d):
+        out.append(("no_placeholder_character_in_result", ex, "none"))
+    return text, out
+
+
 def work(payload, skip, report):
     acc = Acc(PROP)
     kind = payload[0]
@@ -241,6 +276,22 @@ def work(payload, skip, report):
             acc.distinct("contents", c)
             if i % 40009 == 0:
                 acc.sample({"c": c})
+    elif kind == "nw2":
+        _, alpha, depth = payload
+        alphabet = NW_TOKENS if alpha == "T" else NW_CORE
+        for toks in itertools.product(alphabet, repeat=depth):
+            c = "".join(toks)
+            if not c:
+                continue
+            for ti, tmpl in enumerate(EMBED2):
+                report(i)
+                i += 1
+                text, out = check_nowiki2(ctx, c, tmpl)
+                acc.case()
+                for oracle, obs, exp in out:
+                    acc.violation(oracle, {"input": text, "c2": c, "embedding2": ti}, obs, exp)
+            acc.distinct("contents", c)
+        acc.sample({"c2": c, "embedding2": 0})
     elif kind == "cm":
         _, x, pair_alpha = payload
         for y in [""] + CM_TOKENS:
@@ -280,7 +331,9 @@ def work(payload, skip, report):
 def replay(case):
     ctx = make_ctx()
     try:
-        if "c" in case:
+        if "c2" in case:
+            _, out = check_nowiki2(ctx, case["c2"], EMBED2[case["embedding2"]])
+        elif "c" in case:
             _, out = check_nowiki(ctx, case["c"], case["embedding"])
         elif "comment" in case:
             _, out = check_comment(ctx, case["x"], case["comment"], case["y"])
@@ -313,6 +366,7 @@ def main(run):
     for t in PLACEHOLDER_INPUTS:
         chunks.append(("ph", t))
     chunks.append(("re",))
+    chunks += [("nw2", "C", 1), ("nw2", "C" if q else "T", 2)]
     done = 0
     for cid, acc, hung in run_chunks(work, chunks, nproc=run.nproc, case_timeout=6):
         run.acc.merge(acc)
@@ -330,6 +384,7 @@ def main(run):
     }
     assumptions = [
         "reference entity table is an independent copy of the documented one; c contains no '&' so decoding is unambiguous",
+        "nowiki inside constructs written back as text: every content of <= 2 tokens x %d embeddings (a disabled call / a missing template / <pre> / an attribute value holding a link or parameter reference that holds the nowiki, with a second nowiki before or after) x {expand, parse}, against the same input with an inert word as content (substitution oracle)" % len(EMBED2),
         "comment oracle skips x that opens a nowiki or a comment (the comment must be outside nowiki and closed)",
     ]
     return run.finish(cov, assumptions, replay_fn=replay)
